@@ -281,6 +281,40 @@ func entryMutants(p *syncer.Proof, universe [][]byte) (names []string, out []*sy
 			add(fmt.Sprintf("splice[%d<-u%d]", i, j), q)
 		}
 	}
+	// Internal-node entries re-encoded in the non-compact serialization (the true child hashes
+	// appended, which makes the node carry its correct hash by itself), with the child entries that
+	// follow kept, replaced by nil entries, or replaced by empty-hash entries: the verifier must
+	// still bind the children to the node.
+	for _, in := range proofInternals(p) {
+		e := p.Entries[in.idx]
+		nc := append(append(append([]byte{}, e...), in.left[:]...), in.right[:]...)
+		q := cloneProof(p)
+		q.Entries[in.idx] = nc
+		add(fmt.Sprintf("noncompact[%d]", in.idx), q)
+		nchildren := 2
+		if p.V == 1 {
+			nchildren = 3
+		}
+		var eh hash.Hash
+		eh.Empty()
+		for _, kind := range []string{"nil", "emptyhash"} {
+			q = cloneProof(p)
+			var repl [][]byte
+			for c := 0; c < nchildren; c++ {
+				if kind == "nil" {
+					repl = append(repl, nil)
+				} else {
+					repl = append(repl, hashEntry(eh))
+				}
+			}
+			ents := append([][]byte{}, q.Entries[:in.idx]...)
+			ents = append(ents, nc)
+			ents = append(ents, repl...)
+			ents = append(ents, q.Entries[in.end:]...)
+			q.Entries = ents
+			add(fmt.Sprintf("noncompact[%d]+children=%s", in.idx, kind), q)
+		}
+	}
 	for _, extra := range [][]byte{nil, {0x01}, {0x02}, {}} {
 		q := cloneProof(p)
 		q.Entries = append(q.Entries, extra)
@@ -299,6 +333,73 @@ func entryMutants(p *syncer.Proof, universe [][]byte) (names []string, out []*sy
 		add(name, &syncer.Proof{V: p.V, UntrustedRoot: p.UntrustedRoot, Entries: ents})
 	}
 	return
+}
+
+// proofInternal describes a full internal-node entry of a well-formed proof: its index, the
+// end of its subtree in the entry list and the hashes of its children.
+type proofInternal struct {
+	idx, end    int
+	left, right hash.Hash
+}
+
+// proofInternals walks a well-formed proof the way the verifier does.
+func proofInternals(p *syncer.Proof) (out []proofInternal) {
+	var eh hash.Hash
+	eh.Empty()
+	var walk func(idx int) (int, hash.Hash, *node.Pointer, bool)
+	walk = func(idx int) (int, hash.Hash, *node.Pointer, bool) {
+		if idx >= len(p.Entries) {
+			return 0, eh, nil, false
+		}
+		e := p.Entries[idx]
+		if e == nil {
+			return idx + 1, eh, nil, true
+		}
+		if len(e) == 0 {
+			return 0, eh, nil, false
+		}
+		switch e[0] {
+		case 0x02:
+			var h hash.Hash
+			if h.UnmarshalBinary(e[1:]) != nil {
+				return 0, eh, nil, false
+			}
+			return idx + 1, h, &node.Pointer{Clean: true, Hash: h}, true
+		case 0x01:
+			n, err := node.UnmarshalBinary(e[1:])
+			if err != nil {
+				return 0, eh, nil, false
+			}
+			nd, isInt := n.(*node.InternalNode)
+			if !isInt {
+				return idx + 1, n.GetHash(), &node.Pointer{Clean: true, Hash: n.GetHash(), Node: n}, true
+			}
+			pos := idx + 1
+			ok := true
+			if p.V == 1 {
+				var lp *node.Pointer
+				if pos, _, lp, ok = walk(pos); !ok {
+					return 0, eh, nil, false
+				}
+				nd.LeafNode = lp
+			}
+			var lh, rh hash.Hash
+			var l, r *node.Pointer
+			if pos, lh, l, ok = walk(pos); !ok {
+				return 0, eh, nil, false
+			}
+			if pos, rh, r, ok = walk(pos); !ok {
+				return 0, eh, nil, false
+			}
+			nd.Left, nd.Right = l, r
+			nd.UpdateHash()
+			out = append(out, proofInternal{idx: idx, end: pos, left: lh, right: rh})
+			return pos, nd.Hash, &node.Pointer{Clean: true, Hash: nd.Hash, Node: nd}, true
+		}
+		return 0, eh, nil, false
+	}
+	walk(0)
+	return out
 }
 
 func bitMutants(p *syncer.Proof) (names []string, out []*syncer.Proof) {
@@ -678,7 +779,7 @@ func runC04(r *ev.Run) {
 	r.Set("trees", total)
 	r.Set("requests_per_tree", len(reqs))
 	r.Alias("traces_validated_against_impl", "transitions")
-	r.Set("rule", "for every tree over the 6-key alphabet and every request (SyncGet x 13 probe keys x siblings x proof version; SyncIterate x prefetch; SyncGetPrefixes x limit): honest proof verifies and determines the answer; every entry-level mutant (drop, dup, swap, nil, to-hash, empty-hash, splice from neighbouring trees, append, version flip, fabricated) and, for trees <= 3 keys, every bit flip and truncation: rejected, or every answer a remote-backed reader derives from it equals the real contents; adversarial peer: every response tape of length <= R over a 7-item menu")
+	r.Set("rule", "for every tree over the 6-key alphabet and every request (SyncGet x 13 probe keys x siblings x proof version; SyncIterate x prefetch; SyncGetPrefixes x limit): honest proof verifies and determines the answer; every entry-level mutant (drop, dup, swap, nil, to-hash, empty-hash, splice from neighbouring trees, append, version flip, fabricated, internal-node entries re-encoded non-compact with kept / nil / empty-hash children) and, for trees <= 3 keys, every bit flip and truncation: rejected, or every answer a remote-backed reader derives from it equals the real contents; adversarial peer: every response tape of length <= R over a 7-item menu")
 	r.Assume("keys limited to the 6-key alphabet, values a/b (thorough adds the empty value)", "SHA-512/256 trusted")
 	r.Finish()
 }
